@@ -717,7 +717,12 @@ PeerConnection<type>::read_have_chunk(uint32_t index) {
 
   } else {
 
-    if (m_download->chunk_selector()->received_have_chunk(&m_peer_chunks, index)) {
+    // A piece that is already listed in the transfer list is not 'untouched' any more, so the
+    // selector does not report it; it may still have blocks nobody is fetching.
+    auto transfers = m_download->delegator()->transfer_list();
+
+    if (m_download->chunk_selector()->received_have_chunk(&m_peer_chunks, index) ||
+        transfers->find(index) != transfers->end()) {
       m_send_interested = !m_down_interested;
       m_down_interested = true;
 
